@@ -426,7 +426,10 @@ impl Scenario for Hub {
             2 => DAY_NS + 3_600_000_000_000,
             _ => DAY_NS,
         };
-        let genesis_offset_ns = match rng.below(6) {
+        let genesis_offset_ns = match rng.below(7) {
+            // genesis at the unix epoch (a valid configuration the repo's own tests use): the clock is
+            // thousands of epochs late from the start
+            6 => u64::MAX,
             0 => 0,
             1 => 1,
             2 => 3_600_000_000_000,
@@ -583,7 +586,7 @@ impl Scenario for Hub {
             "whale_lair",
             None,
         );
-        let genesis = start_ns + cfg.genesis_offset_ns;
+        let genesis = if cfg.genesis_offset_ns == u64::MAX { 0 } else { start_ns + cfg.genesis_offset_ns };
         let distributor = must_instantiate(
             &mut app,
             distributor_code,
